@@ -166,11 +166,11 @@ impl RowSerde {
                     buf.push(discriminant::NEG_INFINITY);
                 } else if *f == f64::INFINITY {
                     buf.push(discriminant::POS_INFINITY);
-                } else if *f < 0.0 {
+                } else if f.is_sign_negative() {
+                    // includes -0.0: the ZERO discriminant decodes to Int(0), which would
+                    // change the type of a float zero and lose the sign of -0.0
                     buf.push(discriminant::NEG_FLOAT);
                     buf.extend_from_slice(&f.to_bits().to_be_bytes());
-                } else if *f == 0.0 {
-                    buf.push(discriminant::ZERO);
                 } else {
                     buf.push(discriminant::POS_FLOAT);
                     buf.extend_from_slice(&f.to_bits().to_be_bytes());
@@ -531,7 +531,7 @@ impl RowSerde {
                 }
             }
             Value::Float(f) => {
-                if f.is_nan() || *f == f64::NEG_INFINITY || *f == f64::INFINITY || *f == 0.0 {
+                if f.is_nan() || *f == f64::NEG_INFINITY || *f == f64::INFINITY {
                     1
                 } else {
                     1 + 8
